@@ -3,11 +3,14 @@
 // targets and arguments of every size class; after catching the exception all
 // watched objects are compared with the values captured before the call, the
 // allocation registry is checked for leaks, and the objects are used again.
+// The scale phase runs the same table with the invalid datum behind up to 1 Mi
+// valid units and with targets (strings, streams) of up to 1 MiB.
 #include "vrt.h"
 #include "vrt_alloc.h"
 #include "vrt_st.h"
 #include "ref_unicode.h"
 #include "gen_text.h"
+#include "gen_scale.h"
 #include <sstream>
 
 using vrt::Rng;
@@ -34,7 +37,7 @@ struct Watch {
         S v(p->c_str(), p->size());
         checks.push_back([=](const char *when) {
             S now(p->c_str(), p->size());
-            if (now != v) fail(sfmt("%s-changed", role).c_str(), sfmt("(%s) was %s now %s", when, show(v).c_str(), show(now).c_str()));
+            if (now != v) fail(sfmt("%s-changed", role).c_str(), sfmt("(%s) was %zu bytes %s now %zu bytes %s, first difference at byte %zu", when, v.size(), show(v).c_str(), now.size(), show(now).c_str(), scale::first_diff(v, now)));
             if (p->c_str()[p->size()] != 0) fail(sfmt("%s-no-terminator", role).c_str(), when);
         });
     }
@@ -43,7 +46,7 @@ struct Watch {
         std::basic_string<T> v(p->data(), p->size());
         checks.push_back([=](const char *when) {
             std::basic_string<T> now(p->data(), p->size());
-            if (now != v) fail(sfmt("%s-changed", role).c_str(), sfmt("(%s) was %s now %s", when, vrt::hex(v.data(), v.size(), sizeof(T), 30).c_str(), vrt::hex(now.data(), now.size(), sizeof(T), 30).c_str()));
+            if (now != v) fail(sfmt("%s-changed", role).c_str(), sfmt("(%s) was %zu units %s now %zu units %s", when, v.size(), vrt::hex(v.data(), v.size(), sizeof(T), 30).c_str(), now.size(), vrt::hex(now.data(), now.size(), sizeof(T), 30).c_str()));
         });
     }
     template <typename T> void stl(const char *role, const std::basic_string<T> *p)
@@ -56,7 +59,7 @@ struct Watch {
         S v(p->raw_buffer(), p->size());
         checks.push_back([=](const char *when) {
             S now(p->raw_buffer(), p->size());
-            if (now != v) fail(sfmt("%s-changed", role).c_str(), sfmt("(%s) size was %zu now %zu", when, v.size(), now.size()));
+            if (now != v) fail(sfmt("%s-changed", role).c_str(), sfmt("(%s) size was %zu now %zu, first difference at byte %zu", when, v.size(), now.size(), scale::first_diff(v, now)));
         });
     }
     void verify(const char *when) { va::HarnessScope hs; for (auto &c : checks) c(when); vrt::evals(); }
@@ -144,15 +147,29 @@ static void reuse(vrt::Box<ST::string> &t, const S &was)
 }
 
 // ---------------------------------------------------------------- scenarios on an ST::string target
-static void string_target_scenarios(Rng &r, size_t tlen, size_t alen, int where)
+enum Group { G_UTF8 = 1, G_UTF16 = 2, G_UTF32 = 4, G_CODE_POINT = 8, G_LATIN1 = 16, G_MISC = 32, G_CODEC = 64, G_FORMAT = 128, G_ALL = 255 };
+
+// the inputs of one pass over the scenario table
+struct Data {
+    S tv;                               // value of the target
+    S b8;                               // ill-formed UTF-8
+    std::u16string b16;                 // ill-formed UTF-16
+    std::u32string b32;                 // UTF-32 with a code point above U+10FFFF
+    char32_t badcp = 0x110000;
+    S latin;                            // well-formed text with a character above U+00FF
+    S hexbad, hexodd, b64bad, b64len;
+    S badfmt, missfmt, invfmt;          // malformed format string / one that names a missing argument / one whose result is not UTF-8
+    unsigned groups = G_ALL;
+};
+
+static void run_string_scenarios(Rng &r, const Data &dt)
 {
-    const S tv = valid8(r, tlen);
-    const S b8 = bad8(r, alen, where);
-    const std::u16string b16 = bad16(r, alen, where);
-    const std::u32string b32 = bad32(r, alen, where);
+    const S &tv = dt.tv, &b8 = dt.b8;
+    const std::u16string &b16 = dt.b16;
+    const std::u32string &b32 = dt.b32;
     const std::wstring bw(b32.begin(), b32.end());
-    g_ctx = sfmt("target=%zu bytes, argument about %zu units, damage at %s", tlen, alen, where == 0 ? "start" : where == 1 ? "middle" : "end");
     const bool nonul = b8.find('\0') == S::npos;
+    auto grp = [&](unsigned g) { return (dt.groups & g) != 0; };
 
 #define SCEN(name, exc, watch_extra, call)                                  \
     do {                                                                    \
@@ -165,7 +182,7 @@ static void string_target_scenarios(Rng &r, size_t tlen, size_t alen, int where)
     } while (0)
 
     // --- UTF-8 arguments
-    {
+    if (grp(G_UTF8)) {
         vrt::Exact<char> z(b8.data(), b8.size(), true);
         ST::char_buffer cb(b8.data(), b8.size());
         S ss(b8);
@@ -208,7 +225,7 @@ static void string_target_scenarios(Rng &r, size_t tlen, size_t alen, int where)
         SCEN("utf8_to_latin_1(buffer)", UNICODE, w.buf("argument", &cb), auto x = ST::utf8_to_latin_1(cb, ST::check_validity); (void)x);
     }
     // --- UTF-16 arguments
-    {
+    if (grp(G_UTF16)) {
         vrt::Exact<char16_t> z(b16.data(), b16.size(), true);
         ST::utf16_buffer ub(b16.data(), b16.size());
         std::u16string us(b16);
@@ -225,7 +242,7 @@ static void string_target_scenarios(Rng &r, size_t tlen, size_t alen, int where)
         SCEN("utf16_to_utf32(buffer)", UNICODE, w.buf("argument", &ub), auto x = ST::utf16_to_utf32(ub, ST::check_validity); (void)x);
     }
     // --- UTF-32 / wchar_t arguments
-    {
+    if (grp(G_UTF32)) {
         vrt::Exact<char32_t> z(b32.data(), b32.size(), true);
         vrt::Exact<wchar_t> zw(bw.data(), bw.size(), true);
         ST::utf32_buffer ub(b32.data(), b32.size());
@@ -251,8 +268,8 @@ static void string_target_scenarios(Rng &r, size_t tlen, size_t alen, int where)
         SCEN("wchar_to_utf8(buffer)", UNICODE, w.buf("argument", &wb), auto x = ST::wchar_to_utf8(wb, ST::check_validity); (void)x);
     }
     // --- an invalid code point appended / concatenated
-    {
-        const char32_t badcp = b32[where == 0 ? 0 : where == 1 ? b32.size() / 2 : b32.size() - 1];
+    if (grp(G_CODE_POINT)) {
+        const char32_t badcp = dt.badcp;
         if (badcp > 0x10FFFF) {
             SCEN("string+=char32_t", UNICODE, , *t += badcp);
             SCEN("string+=wchar_t", UNICODE, , *t += static_cast<wchar_t>(badcp));
@@ -262,9 +279,9 @@ static void string_target_scenarios(Rng &r, size_t tlen, size_t alen, int where)
         }
     }
     // --- Latin-1 range, index range
-    {
+    if (grp(G_LATIN1)) {
         g_op = "to_latin_1(false)";
-        S txt = valid8(r, tlen / 2) + "\xC4\x80" + valid8(r, tlen / 2);
+        const S &txt = dt.latin;
         vrt::Box<ST::string> t(vrt::mk(txt));
         Watch w;
         w.str("target", &*t);
@@ -295,7 +312,7 @@ static void string_target_scenarios(Rng &r, size_t tlen, size_t alen, int where)
         }
     }
     // --- a failed floating-point rendering leaves the formatter object as it was
-    {
+    if (grp(G_MISC)) {
         g_op = "float_formatter.format(unsupported specifier)";
         for (double prev : {1.5, 1e100, -1e300}) {
             ST::float_formatter<double> ff;
@@ -309,8 +326,8 @@ static void string_target_scenarios(Rng &r, size_t tlen, size_t alen, int where)
             vrt::count("scenarios");
         }
     }
-    SCEN("string.at(out of range)", RANGE, , char c = t->at(tv.size() + r.below(3)); (void)c);
-    {
+    if (grp(G_MISC)) SCEN("string.at(out of range)", RANGE, , char c = t->at(tv.size() + r.below(3)); (void)c);
+    if (grp(G_MISC)) {
         g_op = "buffer.at(out of range)";
         ST::char_buffer b(tv.data(), tv.size());
         Watch w;
@@ -318,13 +335,8 @@ static void string_target_scenarios(Rng &r, size_t tlen, size_t alen, int where)
         must_throw(RANGE, w, [&] { char c = b.at(tv.size()); (void)c; });
     }
     // --- codecs
-    {
-        S hexbad = gen::bytes_over(r, alen & ~static_cast<size_t>(1), "0123456789abcdef");
-        if (hexbad.empty()) hexbad = "zz"; else hexbad[where == 0 ? 0 : where == 1 ? hexbad.size() / 2 : hexbad.size() - 1] = 'g';
-        S hexodd = gen::bytes_over(r, alen | 1, "0123456789ABCDEF");
-        S b64bad = gen::bytes_over(r, (alen & ~static_cast<size_t>(3)) + 4, "ABCDEFabcdef0123+/");
-        b64bad[where == 0 ? 0 : where == 1 ? b64bad.size() / 2 : b64bad.size() - 1] = where == 2 ? '*' : '=';
-        S b64len = gen::bytes_over(r, (alen & ~static_cast<size_t>(3)) + 1 + r.below(3), "ABCDEFabcdef0123+/");
+    if (grp(G_CODEC)) {
+        const S &hexbad = dt.hexbad, &hexodd = dt.hexodd, &b64bad = dt.b64bad, &b64len = dt.b64len;
         for (const S *txt : {&hexbad, &hexodd}) {
             g_op = "hex_decode";
             vrt::Box<ST::string> a(vrt::mk(*txt));
@@ -341,13 +353,11 @@ static void string_target_scenarios(Rng &r, size_t tlen, size_t alen, int where)
         }
     }
     // --- formatting: bad format string, missing argument, invalid result; arguments passed as lvalues
-    {
-        static const char *const badfmts[] = {"{", "x{", "{5", "{_", "{.", "{&", "{q}", "{} {", "{}{!}", "} {{ {"};
-        static const char *const missing[] = {"{}{}{}", "{&4}", "{&0}", "{} {} {&9}"};
-        const char *bf = r.pick(badfmts), *ms = r.pick(missing);
+    if (grp(G_FORMAT)) {
+        const char *bf = dt.badfmt.c_str(), *ms = dt.missfmt.c_str(), *iv = dt.invfmt.c_str();
         SCEN("format(bad format, lvalue string)", BADFMT, , ST::string x = ST::format(bf, *t, 42); (void)x);
         SCEN("format(missing argument, lvalue string)", RANGE, , ST::string x = ST::format(ms, *t, 42); (void)x);
-        SCEN("format(invalid UTF-8 result, lvalue string)", UNICODE, , ST::string x = ST::format("{}\xFF{_\x80" "6}", *t, 1); (void)x);
+        SCEN("format(invalid UTF-8 result, lvalue string)", UNICODE, , ST::string x = ST::format(iv, *t, 1); (void)x);
         // (the sink lives inside the call: what an incremental sink already received is its own)
         SCEN("writef(bad format, lvalue string)", BADFMT, , std::ostringstream os; ST::writef(os, bf, *t, 42));
         // an argument passed as an rvalue: known finding K1 (by-value capture before the format string is parsed)
@@ -359,21 +369,42 @@ static void string_target_scenarios(Rng &r, size_t tlen, size_t alen, int where)
             vrt::evals();
             if (!thrown) fail("did-not-throw", "bad_format");
             else if (vrt::str_of(*a) != tv && !tv.empty())
-                vrt::violation("C18:format:rvalue-argument-moved-from-before-parse", sfmt("ST::format(\"%s\", std::move(s)) threw bad_format but s (%zu bytes) now holds %zu bytes", bf, tv.size(), (*a).size()));
+                vrt::violation("C18:format:rvalue-argument-moved-from-before-parse", sfmt("ST::format(\"%s\", std::move(s)) threw bad_format but s (%zu bytes) now holds %zu bytes", dt.badfmt.size() > 200 ? "..." : bf, tv.size(), (*a).size()));
             vrt::count("format.rvalue_argument");
         }
     }
 #undef SCEN
 }
 
-// ---------------------------------------------------------------- scenarios on a string_stream target
-static void stream_scenarios(Rng &r, size_t fill, size_t alen, int where)
+static const char *const BADFMTS[] = {"{", "x{", "{5", "{_", "{.", "{&", "{q}", "{} {", "{}{!}", "} {{ {"};
+static const char *const MISSING[] = {"{}{}{}", "{&4}", "{&0}", "{} {} {&9}"};
+
+static void string_target_scenarios(Rng &r, size_t tlen, size_t alen, int where)
 {
-    const std::u16string b16 = bad16(r, alen, where);
-    const std::u32string b32 = bad32(r, alen, where);
+    Data dt;
+    dt.tv = valid8(r, tlen);
+    dt.b8 = bad8(r, alen, where);
+    dt.b16 = bad16(r, alen, where);
+    dt.b32 = bad32(r, alen, where);
+    dt.badcp = dt.b32[where == 0 ? 0 : where == 1 ? dt.b32.size() / 2 : dt.b32.size() - 1];
+    g_ctx = sfmt("target=%zu bytes, argument about %zu units, damage at %s", tlen, alen, where == 0 ? "start" : where == 1 ? "middle" : "end");
+    dt.latin = valid8(r, tlen / 2) + "\xC4\x80" + valid8(r, tlen / 2);
+    dt.hexbad = gen::bytes_over(r, alen & ~static_cast<size_t>(1), "0123456789abcdef");
+    if (dt.hexbad.empty()) dt.hexbad = "zz"; else dt.hexbad[where == 0 ? 0 : where == 1 ? dt.hexbad.size() / 2 : dt.hexbad.size() - 1] = 'g';
+    dt.hexodd = gen::bytes_over(r, alen | 1, "0123456789ABCDEF");
+    dt.b64bad = gen::bytes_over(r, (alen & ~static_cast<size_t>(3)) + 4, "ABCDEFabcdef0123+/");
+    dt.b64bad[where == 0 ? 0 : where == 1 ? dt.b64bad.size() / 2 : dt.b64bad.size() - 1] = where == 2 ? '*' : '=';
+    dt.b64len = gen::bytes_over(r, (alen & ~static_cast<size_t>(3)) + 1 + r.below(3), "ABCDEFabcdef0123+/");
+    dt.badfmt = r.pick(BADFMTS);
+    dt.missfmt = r.pick(MISSING);
+    dt.invfmt = "{}\xFF{_\x80" "6}";
+    run_string_scenarios(r, dt);
+}
+
+// ---------------------------------------------------------------- scenarios on a string_stream target
+static void run_stream_scenarios(const S &content, const std::u16string &b16, const std::u32string &b32)
+{
     const std::wstring bw(b32.begin(), b32.end());
-    g_ctx = sfmt("stream holding %zu bytes, argument about %zu units, damage at %s", fill, alen, where == 0 ? "start" : where == 1 ? "middle" : "end");
-    const S content = gen::any_bytes(r, fill);
 #define SSCEN(name, call)                                                   \
     do {                                                                    \
         g_op = name;                                                        \
@@ -405,6 +436,280 @@ static void stream_scenarios(Rng &r, size_t fill, size_t alen, int where)
 #undef SSCEN
 }
 
+static void stream_scenarios(Rng &r, size_t fill, size_t alen, int where)
+{
+    const std::u16string b16 = bad16(r, alen, where);
+    const std::u32string b32 = bad32(r, alen, where);
+    g_ctx = sfmt("stream holding %zu bytes, argument about %zu units, damage at %s", fill, alen, where == 0 ? "start" : where == 1 ? "middle" : "end");
+    const S content = gen::any_bytes(r, fill);
+    run_stream_scenarios(content, b16, b32);
+}
+
+// ================================================================ scale
+// The same scenario table with the invalid datum behind q x B valid units (B from scale::blocks(), q = 1..8) and with targets
+// (strings, string_streams) that are themselves big.
+namespace sc {
+
+enum Enc { E8, E16, E32 };
+static inline size_t units(Enc e, char32_t c)
+{
+    if (e == E32) return 1;
+    if (e == E16) return c >= 0x10000 ? 2 : 1;
+    return c < 0x80 ? 1 : c < 0x800 ? 2 : c < 0x10000 ? 3 : 4;
+}
+enum Bg { BG_ASCII_CONST, BG_ASCII_RANDOM, BG_TWO, BG_THREE, BG_FOUR, BG_MIXED, N_BG };
+
+// well-formed text of exactly n units in encoding e, appended to `out` already encoded in e
+template <typename Str>
+static void put(Str &out, Enc e, char32_t c)
+{
+    if (e == E8) { S t; ref::enc_utf8(t, c); for (char ch : t) out += static_cast<typename Str::value_type>(static_cast<unsigned char>(ch)); }
+    else if (e == E16 && c >= 0x10000) { out += static_cast<typename Str::value_type>(0xD800 + ((c - 0x10000) >> 10)); out += static_cast<typename Str::value_type>(0xDC00 + ((c - 0x10000) & 0x3FF)); }
+    else out += static_cast<typename Str::value_type>(c);
+}
+template <typename Str>
+static void fill_units(Rng &r, Str &out, Enc e, size_t n, unsigned bg, bool filler_first, char32_t cap = 0x10FFFF)
+{
+    static const char32_t two[] = {0xE9, 0xFF, 0x80, 0x7FF, 0x100}, three[] = {0x20AC, 0x800, 0xFFFF, 0xD7FF, 0xE000, 0xFFFD}, four[] = {0x1F600, 0x10000, 0x10FFFF, 0x1F9FF};
+    char32_t c2 = r.pick(two), c3 = r.pick(three), c4 = r.pick(four);
+    if (cap < 0x100) { c2 = r.chance(1, 2) ? 0xE9 : 0xFF; c3 = 0x80; c4 = 0xA0; }          // (Latin-1 range only)
+    const char32_t a = static_cast<char32_t>("ax _0"[r.below(5)]);
+    typedef typename Str::value_type T;
+    switch (bg) {
+    case BG_ASCII_CONST: out.append(n, static_cast<T>(a)); return;
+    case BG_ASCII_RANDOM: for (size_t k = 0; k < n; ++k) out += static_cast<T>(0x21 + r.below(0x5A)); return;      // ('{' '}' and above are left out: format strings)
+    case BG_TWO: case BG_THREE: case BG_FOUR: {
+        const char32_t m = bg == BG_TWO ? c2 : bg == BG_THREE ? c3 : c4;
+        const size_t w = units(e, m), rem = n % w;
+        if (filler_first) out.append(rem, static_cast<T>(a));
+        for (size_t k = n / w; k-- > 0;) put(out, e, m);
+        if (!filler_first) out.append(rem, static_cast<T>(a));
+        return;
+    }
+    default: {
+        size_t left = n;
+        while (left) {
+            const unsigned k = static_cast<unsigned>(r.below(6));
+            char32_t c = k == 0 ? c2 : k == 1 ? c3 : k == 2 ? c4 : static_cast<char32_t>('a' + r.below(26));
+            size_t w = units(e, c);
+            if (w > left) { c = a; w = 1; }
+            put(out, e, c);
+            left -= w;
+        }
+    }
+    }
+}
+
+static size_t pick_margin(Rng &r)
+{
+    return r.chance(1, 2) ? r.below(40) : r.chance(2, 3) ? 1000 + r.below(70000) : 131072 + r.below(70000);
+}
+static size_t pick_target_len(Rng &r, size_t cap)
+{
+    static const size_t small[] = {0, 5, 15, 16, 17, 40};
+    if (r.chance(1, 2)) return r.pick(small);
+    return scale::length(r, r.chance(1, 6) ? cap : std::min<size_t>(cap, 1u << 17), 4096);
+}
+
+// where the datum goes: `back` of its units before the point at distance dist from the beginning (or from the end) of an input of
+// prefix + width + suffix units
+struct Place { size_t prefix, suffix; };
+static Place place(Rng &r, size_t dist, size_t width, size_t back, bool from_end, long nd)
+{
+    Place p;
+    const size_t margin = pick_margin(r);
+    if (!from_end) { p.prefix = static_cast<size_t>(std::max<long>(0, static_cast<long>(dist) - static_cast<long>(back) + nd)); p.suffix = r.chance(1, 3) ? 0 : margin; }
+    else { p.prefix = margin; p.suffix = static_cast<size_t>(std::max<long>(0, static_cast<long>(dist) + static_cast<long>(back) - static_cast<long>(width) + nd)); }
+    return p;
+}
+
+static const char *const BAD8_PIECES[] = {"\x80", "\xC3", "\xE2\x82", "\xF0\x9F\x98", "\xF8", "\xFF", "\xC3\x41", "\xBF\xBF", "\xE2\x41\x82", "\xF0\x9F\x41", "\xC0"};
+static S bad8_build(Rng &r, const S &piece, const Place &pl, size_t &at)
+{
+    S out;
+    out.reserve(pl.prefix + pl.suffix + 8);
+    fill_units(r, out, E8, pl.prefix, static_cast<unsigned>(r.below(N_BG)), r.chance(1, 2));
+    at = out.size();
+    out += piece;
+    fill_units(r, out, E8, pl.suffix, static_cast<unsigned>(r.below(N_BG)), r.chance(1, 2));
+    if (!ref::has_bad(ref::decode_utf8(out))) { at = out.size(); out += "\xFF"; }
+    return out;
+}
+static S bad8_at(Rng &r, size_t dist, bool from_end, long nd, size_t &at)
+{
+    const S piece = r.pick(BAD8_PIECES);
+    const Place pl = place(r, dist, piece.size(), r.below(piece.size() + 1), from_end, nd);
+    return bad8_build(r, piece, pl, at);
+}
+static std::u16string bad16_at(Rng &r, size_t dist, bool from_end, long nd, size_t &at)
+{
+    // a lone low surrogate, a lone high one (followed by an ordinary unit or by the end), two high ones
+    const unsigned kind = static_cast<unsigned>(r.below(4));
+    std::u16string piece;
+    if (kind == 0) piece += static_cast<char16_t>(0xDC00 + r.below(0x400));
+    else if (kind == 1) piece += static_cast<char16_t>(0xD800 + r.below(0x400));
+    else if (kind == 2) { piece += static_cast<char16_t>(0xD800 + r.below(0x400)); piece += u'x'; }
+    else { piece += static_cast<char16_t>(0xD800 + r.below(0x400)); piece += static_cast<char16_t>(0xD800 + r.below(0x400)); piece += u'y'; }
+    Place pl = place(r, dist, piece.size(), r.below(piece.size() + 1), from_end, nd);
+    std::u16string out;
+    out.reserve(pl.prefix + pl.suffix + 8);
+    fill_units(r, out, E16, pl.prefix, static_cast<unsigned>(r.below(N_BG)), r.chance(1, 2));
+    at = out.size();
+    out += piece;
+    const size_t mark = out.size();
+    fill_units(r, out, E16, pl.suffix, static_cast<unsigned>(r.below(N_BG)), true);
+    // (a lone surrogate must not be completed by what follows: the library also reads low + high as a pair)
+    auto sur = [](char16_t c) { return c >= 0xD800 && c <= 0xDFFF; };
+    if (mark < out.size() && sur(out[mark - 1]) && sur(out[mark])) out.insert(mark, 1, u'-');
+    if (!ref::has_bad(ref::decode_utf16(out.data(), out.size()))) { at = out.size(); out += static_cast<char16_t>(0xDC00); }
+    return out;
+}
+static std::u32string bad32_at(Rng &r, size_t dist, bool from_end, long nd, size_t &at)
+{
+    static const char32_t bads[] = {0x110000, 0x7FFFFFFF, 0xFFFFFFFFu, 0x200000, 0x80000000u};
+    const Place pl = place(r, dist, 1, r.below(2), from_end, nd);
+    std::u32string out;
+    out.reserve(pl.prefix + pl.suffix + 8);
+    fill_units(r, out, E32, pl.prefix, static_cast<unsigned>(r.below(N_BG)), r.chance(1, 2));
+    at = out.size();
+    out += r.pick(bads);
+    fill_units(r, out, E32, pl.suffix, static_cast<unsigned>(r.below(N_BG)), r.chance(1, 2));
+    return out;
+}
+
+static const char *const GROUP_NAME[] = {"UTF-8 arguments", "UTF-16 arguments", "UTF-32 / wchar_t arguments and code points", "hex / base64 text", "format strings, Latin-1 range, index range", "string_stream targets"};
+
+static void failure_case(uint64_t i, Rng &r)
+{
+    const std::vector<size_t> &BL = scale::blocks();
+    const uint64_t G = BL.size() * 8 * 6;
+    const uint64_t g = (i * 625) % G;                    // a fixed permutation of the grid
+    const size_t B = BL[g % BL.size()];
+    size_t q = 1 + (g / BL.size()) % 8;
+    const unsigned group = static_cast<unsigned>((g / (BL.size() * 8)) % 6);
+    const size_t CAP = vrt::opt().scale < 1.0 ? (1u << 17) : (1u << 20);
+    if (B > CAP) { vrt::count("scale.skipped_too_large"); return; }
+    if (B * q > CAP) q = 1 + (q - 1) % (CAP / B);
+    const size_t dist = q * B;
+    const bool from_end = r.chance(1, 5);
+    const long nd = r.chance(1, 6) ? scale::nudge(r) : 0;
+    size_t at = 0, arg_units = 0;
+
+    if (group == 5) {
+        // the target is a stream that has grown (or not); the rejected text is long (datum behind dist units) or short
+        const bool short_arg = r.chance(1, 3);
+        const size_t d2 = short_arg ? r.below(40) : dist;
+        const std::u16string b16 = bad16_at(r, d2, from_end, nd, at);
+        const std::u32string b32 = bad32_at(r, d2, from_end, nd, at);
+        size_t fill;
+        switch (r.below(6)) {
+        case 0: fill = r.below(600); break;
+        case 1: fill = (static_cast<size_t>(1) << (9 + r.below(12))) + static_cast<size_t>(2 + scale::nudge(r)) - 2; break;
+        case 2: fill = CAP + r.below(3) * 4093; break;                  // (1 MiB and a bit more)
+        default: fill = scale::length(r, r.chance(1, 4) ? CAP : std::min<size_t>(CAP, 1u << 18), 4096); break;
+        }
+        // content: well-formed text, for half of the cases with an ill-formed piece at a grid offset (to_string then throws)
+        S content;
+        size_t cat = 0;
+        if (r.chance(1, 2)) {
+            const S piece = r.pick(BAD8_PIECES);
+            Place pl;
+            pl.prefix = scale::offset_any(r, fill);
+            pl.suffix = fill > pl.prefix + piece.size() ? fill - pl.prefix - piece.size() : 0;
+            content = bad8_build(r, piece, pl, cat);
+        }
+        else fill_units(r, content, E8, fill, static_cast<unsigned>(r.below(N_BG)), r.chance(1, 2));
+        g_ctx = sfmt("[scale] stream holding %zu bytes (%s), rejected UTF-16 text of %zu units / UTF-32 text of %zu units with the invalid unit at %zu = %s%zu x %zu%+ld", content.size(),
+                     scale::brief(content, cat).c_str(), b16.size(), b32.size(), at, from_end ? "end - " : "", short_arg ? static_cast<size_t>(0) : q, B, nd);
+        run_stream_scenarios(content, b16, b32);
+        vrt::count("scale.stream_target_cases");
+        if (content.size() > 32768) vrt::count("scale.stream_target>32KiB");
+        if (content.size() >= (1u << 20)) vrt::count("scale.stream_target>=1MiB");
+        if (b32.size() > 65536 && !from_end) vrt::count("scale.stream_argument>64Ki_units");
+        arg_units = b32.size();
+    } else {
+        Data dt;
+        const size_t tlen = pick_target_len(r, CAP);
+        if (tlen) fill_units(r, dt.tv, E8, tlen, static_cast<unsigned>(r.below(N_BG)), r.chance(1, 2));
+        std::string what;
+        switch (group) {
+        case 0: dt.groups = G_UTF8; dt.b8 = bad8_at(r, dist, from_end, nd, at); arg_units = dt.b8.size(); what = scale::brief(dt.b8, at); break;
+        case 1: dt.groups = G_UTF16; dt.b16 = bad16_at(r, dist, from_end, nd, at); arg_units = dt.b16.size(); what = vrt::hex(dt.b16.data() + (at > 4 ? at - 4 : 0), std::min<size_t>(10, dt.b16.size() - (at > 4 ? at - 4 : 0)), 2); break;
+        case 2: dt.groups = G_UTF32 | G_CODE_POINT; dt.b32 = bad32_at(r, dist, from_end, nd, at); dt.badcp = dt.b32[at]; arg_units = dt.b32.size();
+                what = vrt::hex(dt.b32.data() + (at > 4 ? at - 4 : 0), std::min<size_t>(10, dt.b32.size() - (at > 4 ? at - 4 : 0)), 4); break;
+        case 3: {
+            dt.groups = G_CODEC;
+            static const char hexd[] = "0123456789abcdefABCDEF", b64d[] = "ABCDEFGHIJKLMNOPQRSTUVWXYZabcdefghijklmnopqrstuvwxyz0123456789+/";
+            const Place ph = place(r, dist, 1, r.below(2), from_end, nd);
+            size_t hl = (ph.prefix + 1 + ph.suffix + 1) & ~static_cast<size_t>(1);
+            dt.hexbad = gen::bytes_over(r, hl, S(hexd, r.chance(1, 2) ? 16 : 22));
+            at = std::min(ph.prefix, hl - 1);
+            dt.hexbad[at] = "gG xz:\x80"[r.below(7)];
+            dt.hexodd = gen::bytes_over(r, (dist + static_cast<size_t>(9 + nd) - 9) | 1, S(hexd, 16));
+            const Place pb = place(r, dist, 1, r.below(2), from_end, nd);
+            const size_t bl = (pb.prefix + 1 + pb.suffix + 3) & ~static_cast<size_t>(3);
+            dt.b64bad = gen::bytes_over(r, bl, S(b64d, 64));
+            const size_t bat = std::min(pb.prefix, bl - 1);
+            dt.b64bad[bat] = bat + 2 >= bl ? '*' : "=*-_ \x80"[r.below(6)];
+            dt.b64len = gen::bytes_over(r, ((dist + static_cast<size_t>(9 + nd) - 9) & ~static_cast<size_t>(3)) + 1 + r.below(3), S(b64d, 64));
+            arg_units = bl;
+            what = sfmt("hex %s base64 %s", scale::brief(dt.hexbad, at).c_str(), scale::brief(dt.b64bad, bat).c_str());
+            break;
+        }
+        default: {
+            dt.groups = G_FORMAT | G_LATIN1 | G_MISC;
+            // literal text (with escaped braces and at most one field) in front of the malformed / unsatisfiable / non-UTF-8 part
+            auto literal = [&](size_t n, unsigned fields) {
+                S f;
+                fill_units(r, f, E8, n, r.chance(1, 2) ? BG_ASCII_RANDOM : BG_ASCII_CONST, false);       // (neither alphabet has braces)
+                // escapes and fields go to offsets that are multiples of 4, so that they never touch each other
+                for (size_t k = r.below(4); k-- > 0 && n >= 8;) { const size_t pos = 4 * r.below(n / 4); if (pos + 1 < n) { f[pos] = '{'; f[pos + 1] = '{'; } }
+                for (unsigned k = 0; k < fields && n >= 8; ++k) { const size_t pos = 4 * r.below(n / 4); if (pos + 1 < n) { f[pos] = '{'; f[pos + 1] = '}'; } }
+                return f;
+            };
+            const Place pf = place(r, dist, 1, 0, false, nd);
+            const char *const tail = r.pick(BADFMTS);          // (one scenario passes a single argument: at most one field in all)
+            dt.badfmt = literal(pf.prefix, strstr(tail, "{}") ? 0 : static_cast<unsigned>(r.below(2))) + tail;
+            dt.missfmt = literal(pf.prefix, 0) + r.pick(MISSING);
+            dt.invfmt = literal(pf.prefix, 0) + (r.chance(1, 2) ? "\xFF" : "{}\xFF{_\x80" "6}") + literal(r.chance(1, 2) ? 0 : pick_margin(r) % 5000, 0);
+            at = pf.prefix;
+            // text that is Latin-1 up to the point
+            const bool in_chars = r.chance(1, 2);
+            static const char32_t wide[] = {0x100, 0x20AC, 0xFFFD, 0x1F600, 0x10FFFF, 0x7FF};
+            const char32_t wc = r.pick(wide);
+            const Place pl = place(r, dist, in_chars ? 1 : units(E8, wc), in_chars ? r.below(2) : r.below(units(E8, wc) + 1), from_end, nd);
+            if (in_chars) {
+                std::u32string cps;
+                fill_units(r, cps, E32, pl.prefix, static_cast<unsigned>(r.below(N_BG)), true, 0xFF);
+                cps += wc;
+                fill_units(r, cps, E32, pl.suffix, static_cast<unsigned>(r.below(N_BG)), true, r.chance(1, 2) ? 0xFF : 0x10FFFF);
+                for (char32_t c : cps) ref::enc_utf8(dt.latin, c);
+            } else {
+                fill_units(r, dt.latin, E8, pl.prefix, static_cast<unsigned>(r.below(N_BG)), r.chance(1, 2), 0xFF);
+                ref::enc_utf8(dt.latin, wc);
+                fill_units(r, dt.latin, E8, pl.suffix, static_cast<unsigned>(r.below(N_BG)), r.chance(1, 2), r.chance(1, 2) ? 0xFF : 0x10FFFF);
+            }
+            arg_units = dt.badfmt.size();
+            what = sfmt("format %s; Latin-1 text %s", scale::brief(dt.badfmt, at).c_str(), scale::brief(dt.latin).c_str());
+            break;
+        }
+        }
+        g_ctx = sfmt("[scale] target=%zu bytes, %s: %zu units, invalid datum at %zu = %s%zu x %zu%+ld: %s", dt.tv.size(), GROUP_NAME[group], arg_units, at, from_end ? "end - " : "", q, B, nd, what.c_str());
+        run_string_scenarios(r, dt);
+        if (dt.tv.size() >= 4096) vrt::count("scale.string_target>=4KiB");
+        if (dt.tv.size() >= 65536) vrt::count("scale.string_target>=64KiB");
+    }
+    vrt::count("scale.cases");
+    vrt::count(sfmt("scale.cases.%s", GROUP_NAME[group]));
+    if (!from_end && at >= 65536) vrt::count("scale.datum_behind>=64Ki_valid_units");
+    if (!from_end && at >= (1u << 20) - 16) vrt::count("scale.datum_behind>=1Mi_valid_units");
+    if (from_end) vrt::count("scale.measured_from_end");
+    vrt::distinct(vrt::fnv_u64(i, vrt::fnv_u64(g, 151)));
+    if (vrt::want_sample("scale")) vrt::sample("scale", g_ctx);
+}
+
+} // namespace sc
+
 static void body()
 {
     vrt::require("scenarios", 15000);
@@ -426,6 +731,19 @@ static void body()
         vrt::distinct(vrt::fnv_u64(i, 141));
         if (vrt::want_sample("enumerated")) vrt::sample("enumerated", g_ctx + ": ~90 failing calls, each followed by value / leak / reuse checks");
     });
+    // scale: the datum that makes the call fail sits behind q x B valid units (B = 16 .. 1 Mi, q = 1..8; measured from the end for one
+    // case in five); string targets of up to 1 MiB; streams that have grown to 64 KiB .. 1 MiB before the failing insertion
+    vrt::note("scale phase: every scenario of the table with the invalid datum (ill-formed UTF-8/16/32, code point above U+10FFFF, bad hex / base64 character or length, malformed format specifier, missing "
+              "argument, non-UTF-8 format result, character outside Latin-1) behind q x B valid units (B from 16 to 1 Mi, q = 1..8), against string targets of 0 .. 1 MiB and string_stream targets holding 0 .. 1 MiB");
+    vrt::require("scale.cases", 100);
+    for (const char *gname : sc::GROUP_NAME) vrt::require(sfmt("scale.cases.%s", gname), 10);
+    vrt::require("scale.datum_behind>=64Ki_valid_units", 30);
+    vrt::require("scale.datum_behind>=1Mi_valid_units", 1);
+    vrt::require("scale.string_target>=64KiB", 10);
+    vrt::require("scale.stream_target>32KiB", 10);
+    vrt::require("scale.stream_target>=1MiB", 1);
+    vrt::require("scale.stream_argument>64Ki_units", 5);
+    vrt::phase("scale", vrt::tier_count(2016, 40000), sc::failure_case);
     va::check_pairing("failure");
 }
 
